@@ -20,11 +20,25 @@ def boundary_bundles():
             out.append(genb.rnd_bundle(rng, nblocks=n, crc_kind=ck))
     out.append(genb.rnd_bundle(rng, nblocks=3, fragment=True))
     out.append(genb.rnd_bundle(rng, nblocks=3, fragment=False))
+    # block orders a peer may use but the library's builders never produce: ascending (2, 3, 4, payload 1), shuffled, sparse
+    for n in (2, 3, 5, 24):
+        for ck in (0, 1, 2):
+            b = genb.rnd_bundle(rng, nblocks=n, crc_kind=ck)
+            for c, v in zip(b["cs"][:-1], range(2, n + 2)):
+                c["num"] = v
+            out.append(b)
+    for _ in range(12):
+        b = genb.rnd_bundle(rng, nblocks=rng.randrange(2, 7))
+        while b["cs"][0]["num"] > b["cs"][1]["num"]:
+            b = genb.reorder(rng, b)
+        out.append(b)
+    # blocks whose correct CRC-16 is exactly 0x0000 (indistinguishable by value from the never-calculated placeholder)
+    out += genb.zero_crc_bundles()
     return out
 
 
 def bundle_cases(rng, n):
-    return [genb.rnd_bundle(rng) for _ in range(n)]
+    return [genb.reorder(rng, genb.rnd_bundle(rng), free=True) for _ in range(n)]
 
 
 def same_content(a, b):
